@@ -390,7 +390,62 @@ structure ScanSt where
   r : Reader.Reader
   seenOpt : Bool := false
 
-/-- the TSIG branch; `some true` = verified (continue), `some false` = stop -/
+/-- `tsig_keys.get(tsig_rr.key_name()).filter(|(a, _)| *a == algorithm)`: the key map is keyed by
+    name (one algorithm per key); a key configured for another algorithm is as good as unknown -/
+def findKey (keys : List Key) (keyName : List UInt8) (alg : Hmac.Alg) : Option Key :=
+  match keys.find? (fun k => k.name == keyName) with
+  | some k => if k.alg = alg then some k else none
+  | none => none
+
+/-- the common tail of `find_tsig_algorithm_or_write_error` and `find_tsig_key_or_write_error`:
+    NOTAUTH, unsigned TSIG RR (algorithm name echoed) with error BADKEY; processing stops -/
+def tsigBadKey (tsigRr : Tsig.ReadTsigRr) (nowT : Tsig.TimeSigned) : M (Option Reader.Reader) := do
+  setRcode (RC "NOTAUTH")
+  match WName.parse tsigRr.algorithm, preparedFromRead tsigRr nowT (XRC "BADKEY") with
+  | some (an, []), some prep => do
+    let _ ← setTsigOrTruncate (.unsigned an) prep
+    pure none
+  | _, _ => M.panic
+
+/-- the `match` of `verify_tsig_and_write_tsig_rr`: (RCODE, TSIG error, TSIG mode) for each outcome
+    of `verify_request` (`none`: `verify_request` panicked) -/
+def tsigReply (alg : Hmac.Alg) (requestMac secret : List UInt8) :
+    Out Tsig.VerificationError Unit → Option (Nat × Nat × TsigMode)
+  | .ok () => some (RC "NOERROR", XRC "NOERROR", .response (toWriterAlg alg) requestMac secret)
+  | .err .BadSig => some (RC "NOTAUTH", XRC "BADVERSBADSIG", .unsigned (algName (toWriterAlg alg)))
+  | .err .BadTime => some (RC "NOTAUTH", XRC "BADTIME", .response (toWriterAlg alg) requestMac secret)
+  | .err .FormErr => some (RC "FORMERR", XRC "BADVERSBADSIG", .unsigned (algName (toWriterAlg alg)))
+  | .panic => none
+
+/-- `verify_tsig_and_write_tsig_rr`; `hm` = the MAC primitive -/
+def tsigVerifyAndWrite (hm : Tsig.Algorithm → Tsig.Octets → Tsig.Octets → Tsig.Octets)
+    (tsigRr : Tsig.ReadTsigRr) (messageWithoutTsig : List UInt8) (alg : Hmac.Alg) (secret : List UInt8)
+    (nowT : Tsig.TimeSigned) (r' : Reader.Reader) : M (Option Reader.Reader) := fun s =>
+  match tsigReply alg (Tsig.ReadTsigRr.mac tsigRr) secret
+          (Tsig.verifyRequest hm tsigRr messageWithoutTsig alg secret nowT) with
+  | some (rcode, tsigErr, mode) =>
+    match preparedFromRead tsigRr nowT tsigErr with
+    | some prep =>
+      (do
+        setRcode rcode
+        let added ← setTsigOrTruncate mode prep
+        if added && rcode = RC "NOERROR" then pure (some r') else pure none) s
+    | none => (.panic, s)
+  | none => (.panic, s)
+
+/-- the TSIG processing proper (`handle_message_with_context` after `ReadTsigRr::try_from`):
+    algorithm lookup, key lookup, verification; each step writes the response TSIG on failure -/
+def tsigProcess (hm : Tsig.Algorithm → Tsig.Octets → Tsig.Octets → Tsig.Octets) (keys : List Key)
+    (nowT : Tsig.TimeSigned) (tsigRr : Tsig.ReadTsigRr) (messageWithoutTsig : List UInt8)
+    (r' : Reader.Reader) : M (Option Reader.Reader) :=
+  match Tsig.Algorithm.fromName tsigRr.algorithm with
+  | none => tsigBadKey tsigRr nowT
+  | some alg =>
+    match findKey keys tsigRr.keyName alg with
+    | none => tsigBadKey tsigRr nowT
+    | some key => tsigVerifyAndWrite hm tsigRr messageWithoutTsig alg key.secret nowT r'
+
+/-- the TSIG branch; `some r'` = verified (continue scanning at `r'`), `none` = stop -/
 def handleTsig (cfg : Cfg) (now : Nat) (p : Reader.PeekRr) (rawTtl : Nat) : M (Option Reader.Reader) := fun s =>
   match p.messageToRr with
   | .ok messageWithoutTsig =>
@@ -405,38 +460,7 @@ def handleTsig (cfg : Cfg) (now : Nat) (p : Reader.PeekRr) (rawTtl : Nat) : M (O
         | .ok tsigRr =>
           match Tsig.TimeSigned.tryFromUnix now with
           | none => (.panic, s)
-          | some nowT =>
-            let badKey : M (Option Reader.Reader) := do
-              setRcode (RC "NOTAUTH")
-              match WName.parse tsigRr.algorithm, preparedFromRead tsigRr nowT (XRC "BADKEY") with
-              | some (an, []), some prep => do
-                let _ ← setTsigOrTruncate (.unsigned an) prep
-                pure none
-              | _, _ => M.panic
-            match Tsig.Algorithm.fromName tsigRr.algorithm with
-            | none => badKey s
-            | some alg =>
-              match cfg.keys.find? (fun k => k.name == tsigRr.keyName && k.alg == alg) with
-              | none => badKey s
-              | some key =>
-                let res := Tsig.verifyRequest Tsig.realHmac tsigRr messageWithoutTsig.toList alg key.secret nowT
-                let (rcode, tsigErr, mode) : Nat × Nat × Option TsigMode := match res with
-                  | .ok () => (RC "NOERROR", XRC "NOERROR",
-                      some (.response (toWriterAlg alg) (Tsig.ReadTsigRr.mac tsigRr) key.secret))
-                  | .err .BadSig => (RC "NOTAUTH", XRC "BADVERSBADSIG",
-                      (WName.parse alg.name).map (fun x => .unsigned x.1))
-                  | .err .BadTime => (RC "NOTAUTH", XRC "BADTIME",
-                      some (.response (toWriterAlg alg) (Tsig.ReadTsigRr.mac tsigRr) key.secret))
-                  | .err .FormErr => (RC "FORMERR", XRC "BADVERSBADSIG",
-                      (WName.parse alg.name).map (fun x => .unsigned x.1))
-                  | .panic => (0, 0, none)
-                match mode, preparedFromRead tsigRr nowT tsigErr with
-                | some m, some prep =>
-                  (do
-                    setRcode rcode
-                    let added ← setTsigOrTruncate m prep
-                    if added && rcode = RC "NOERROR" then pure (some r') else pure none) s
-                | _, _ => (.panic, s)
+          | some nowT => tsigProcess Tsig.realHmac cfg.keys nowT tsigRr messageWithoutTsig.toList r' s
     | (.err _, _) => (do setRcode (RC "FORMERR"); pure none) s
     | (.panic, _) => (.panic, s)
   | _ => (.panic, s)
@@ -537,8 +561,9 @@ def handleWithContext (cfg : Cfg) (tr : Transport) (now : Nat) (r0 : Reader.Read
                 pure true) s
   | _, _, _, _, _ => (.panic, s)
 
-/-- the MAC of the response TSIG (`sign_response` in `finish_with_mac`) -/
-def macFn (ts : Writer.Tsig) (message : List UInt8) : List UInt8 :=
+/-- the MAC of the response TSIG (`sign_response` in `finish_with_mac`); `hm` = the MAC primitive -/
+def macFnWith (hm : Tsig.Algorithm → Tsig.Octets → Tsig.Octets → Tsig.Octets) (ts : Writer.Tsig)
+    (message : List UInt8) : List UInt8 :=
   match ts.mode with
   | .response alg requestMac key =>
     let a : Hmac.Alg := match alg with | .hmacSha1 => .HmacSha1 | .hmacSha256 => .HmacSha256
@@ -546,10 +571,13 @@ def macFn (ts : Writer.Tsig) (message : List UInt8) : List UInt8 :=
       { keyName := ts.rr.keyName.wire, timeSigned := Tsig.TimeSigned.ofList ts.rr.timeSigned,
         fudge := UInt16.ofNat ts.rr.fudge, originalId := UInt16.ofNat ts.rr.originalId,
         error := UInt16.ofNat ts.rr.error, serverTime := Tsig.TimeSigned.ofList ts.rr.serverTime }
-    match (Tsig.signResponse (ε := Unit) Tsig.realHmac prep message requestMac a key) with
+    match (Tsig.signResponse (ε := Unit) hm prep message requestMac a key) with
     | .ok (_, mac) => mac
     | _ => []
   | _ => []
+
+/-- `macFnWith` with the real HMAC -/
+def macFn (ts : Writer.Tsig) (message : List UInt8) : List UInt8 := macFnWith Tsig.realHmac ts message
 
 /-- `Server::handle_message` (RRL disabled). `bufLen` = `response_buf.len()`. -/
 def handleMessage (cfg : Cfg) (tr : Transport) (now : Nat) (bufLen : Nat) (req : Bytes) : Out Unit (Option Bytes) :=
